@@ -508,7 +508,50 @@ pub fn run(ctx: &RunCtx) -> i32 {
         }
         r.count("requests_served_by_a_reused_service_instance", session_end());
     });
+    let mut total = total;
+    {
+        let rt = new_runtime();
+        aligned_expiry(&rt, &mut total, &secrets, ctx.tier.sz(1, 12));
+    }
     finish(ctx, &meta, &total)
+}
+
+/// the expiry of a presigned URL at sub-second resolution (see C06's aligned_boundaries)
+fn aligned_expiry(rt: &tokio::runtime::Runtime, r: &mut Report, secrets: &HashMap<String, String>, batches: u64) {
+    let mut cfg = auth_cfg(secrets, HostCfg::Single(DOMAIN.into()));
+    cfg.access = Some(AccessPolicy::DefaultLike);
+    for b in 0..batches * 4 {
+        let (s, t0) = crate::monitor::c05::wait_for_mid_second();
+        let vhost = b % 2 == 1;
+        let mk = |expires: i64| {
+            let mut req = if vhost { RawRequest::new("GET", "/aligned-key").header("host", &format!("alignedbucket.{DOMAIN}")) } else { RawRequest::new("GET", "/alignedbucket/aligned-key").header("host", DOMAIN) };
+            sign_query(&mut req, AK, &secrets[AK], expires);
+            req
+        };
+        let cases: Vec<(&str, RawRequest, bool, Option<i64>)> = vec![
+            ("expired-since-a-fraction-of-a-second", mk(s), false, None),
+            ("expired-since-a-second-and-a-fraction", mk(s - 1), false, None),
+            ("expires-in-a-fraction-of-a-second", mk(s + 1), true, Some(s + 1)),
+            ("expires-in-a-second-and-a-fraction", mk(s + 2), true, Some(s + 2)),
+        ];
+        for (what, req, want_auth, certain_until) in cases {
+            let seen = run_auth(rt, &cfg, &req);
+            let t1 = crate::monitor::c05::now_f64();
+            if certain_until.is_some_and(|u| t1 >= u as f64 - 0.02) {
+                r.inconclusive("aligned expiry: the call did not finish inside the second it was aimed at");
+                continue;
+            }
+            let authenticated = matches!(&seen.hook_cred, Some(Some(_))) || !seen.backend.is_empty();
+            if authenticated == want_auth {
+                r.held(format!("aligned/{what}/{}", if vhost { "vhost" } else { "path" }));
+            } else {
+                r.violated(
+                    format!("C11/aligned/{}/{what}", if authenticated { "accepted" } else { "refused" }),
+                    json!({"kind": "aligned", "what": what, "request": req.to_json(), "clock_before": t0, "clock_after": t1, "whole_second": s, "seen": {"status": seen.status, "code": seen.code, "events": seen.events}}),
+                );
+            }
+        }
+    }
 }
 
 pub fn replay(v: &Value) -> i32 {
